@@ -17,7 +17,7 @@ var StubList = []string{
 	"errors.Is: native walk over Is/Unwrap methods (no reflectlite)",
 	"internal/abi.NoEscape, internal/race.*, internal/godebug: identity / no-op",
 	"sync.{Mutex,RWMutex}: lock counters (unlock of unlocked = Go panic), TryLock succeeds iff free; sync.Once: runs the closure once; sync.Pool: Get returns the most recently Put object, else New(); sequential semantics",
-	"time.{Now,Since,NewTimer} and time.Time.{Add,Sub,After,Before,Equal,IsZero,Compare}: an instant is one 64-bit nanosecond count",
+	"time.{Now,Since,NewTimer,Unix,UnixMilli} and time.Time.{Add,Sub,After,Before,Equal,IsZero,Compare,Unix,UnixMilli,UnixMicro,UnixNano}: an instant is one 64-bit nanosecond count",
 	"time.Duration.Milliseconds: executed from SSA (signed division by 1e6)",
 	"math/rand.{New,NewSource,(*Rand).Float64}: arbitrary float in [0,1)",
 	"net/textproto.CanonicalMIMEHeaderKey: native on concrete keys",
@@ -524,6 +524,14 @@ func registerTimeStubs(p *Program) {
 	p.stub("(time.Time).Equal", func(ex *Exec, a []Value) Value { return Eq(ns(a[0]), ns(a[1])) })
 	p.stub("(time.Time).IsZero", func(ex *Exec, a []Value) Value { return Eq(ns(a[0]), BV(0, 64)) })
 	p.stub("(time.Time).UnixNano", func(ex *Exec, a []Value) Value { return ns(a[0]) })
+	// conversions between the instant and Unix units (instants of the scenarios are non-negative)
+	p.stub("time.Unix", func(ex *Exec, a []Value) Value {
+		return ex.mkTime(Bin(OAdd, Bin(OMul, a[0].(*Term), BV(1000000000, 64)), a[1].(*Term)))
+	})
+	p.stub("time.UnixMilli", func(ex *Exec, a []Value) Value { return ex.mkTime(Bin(OMul, a[0].(*Term), BV(1000000, 64))) })
+	p.stub("(time.Time).Unix", func(ex *Exec, a []Value) Value { return Bin(OSDiv, ns(a[0]), BV(1000000000, 64)) })
+	p.stub("(time.Time).UnixMilli", func(ex *Exec, a []Value) Value { return Bin(OSDiv, ns(a[0]), BV(1000000, 64)) })
+	p.stub("(time.Time).UnixMicro", func(ex *Exec, a []Value) Value { return Bin(OSDiv, ns(a[0]), BV(1000, 64)) })
 	p.stub("(time.Time).Compare", func(ex *Exec, a []Value) Value {
 		x, y := ns(a[0]), ns(a[1])
 		return Ite(Cmp(OSLt, x, y), BV(^uint64(0), 64), Ite(Eq(x, y), BV(0, 64), BV(1, 64)))
